@@ -40,11 +40,15 @@ def rule_r1(ck, prog, S):
     if f is None:
         ck.anchor_lost("C07-R1", "getBasePrefix")
         return
+    # the prefix for each radix, by evaluating the function on the radix (switch, if-chain or table: all the same)
+    from sa import interp as I
     writer = {}
     for b in (2, 8, 10, 16, 7):
-        for ps in P.summarize(f, params={f.params[0]["name"]: b}):
-            r = ps.ret_node.child(0).strip_all_casts() if ps.ret_node is not None and ps.ret_node.ch else None
-            writer[b] = r.get("str") if r is not None and r.k == "StringLiteral" else None
+        try:
+            writer[b] = I.as_text(I.call(prog, f.name, [b])[0])
+        except I.Stuck as e:
+            ck.undecided("C07-R1", K.site(f, "prefix-inverse", 0), K.loc(f), "getBasePrefix(%d) cannot be evaluated: %s" % (b, e))
+            return
     # reader: letter sets -> class (byte-wise reachability in the lexer) -> radix
     from .lexmodel import LexModel
     from . import c13
